@@ -47,6 +47,29 @@ func opSA(w *World, s *Step) (string, string) {
 		if err == nil {
 			sa.Keys = rawKeysOf(sa.Obj[0])
 		}
+	case "rekey":
+		// each endpoint makes the new SA's key object as a copy of the old one (keeping the negotiated algorithms)
+		// and keys it again with the new exchange's values
+		for i := 0; i < 2 && err == nil; i++ {
+			var old *security.IKESAKey
+			old, err = kdfKeyObj(sa.Suite, append(clone(s.Nonce2), 1), append(clone(s.Secret), 2), s.SpiR, s.SpiI)
+			if err != nil {
+				break
+			}
+			cp := *old
+			res := &callResult{}
+			guard(res, func() { res.Err = cp.GenerateKeyForIKESA(clone(s.Nonce), clone(s.Secret), s.SpiI, s.SpiR) })
+			if res.class() == "ok" {
+				sa.Obj[i] = &cp
+				w.stats.inc("sa_rekeyed_on_a_copy_of_the_old_object")
+			} else {
+				// refusing to key an object twice is the library's right; use a new object then
+				sa.Obj[i], err = kdfKeyObj(sa.Suite, s.Nonce, s.Secret, s.SpiI, s.SpiR)
+			}
+		}
+		if err == nil {
+			sa.Keys = rawKeysOf(sa.Obj[0])
+		}
 	case "dh":
 		sa.Obj[0], sa.Obj[1], err = dhInstall(w, sa.Suite, s)
 		if err == nil {
@@ -334,6 +357,13 @@ func opDeliver(w *World, s *Step) (string, string) {
 	var before []byte
 	if w.prop == "C18" {
 		before = clone(c.buf[:cap(c.buf)])
+	}
+	if rx.WrongFirst && c.sa != nil {
+		if wk, err := newKeyObj(c.sa.Suite, genRawKeys(NewRng(fnv1a(0x33, c.sa.Keys.SKd)), c.sa.Suite)); err == nil {
+			unprotect(c.buf, wk, c.toRole, rx.PreHdr)
+			w.stats.inc("fault_same_buffer_first_tried_with_another_sa")
+			c.sa.Log.Store(&spyLog{})
+		}
 	}
 	c.msg, c.res = unprotect(c.buf, c.key, c.toRole, rx.PreHdr, rx.Hdr28, rx.HdrOther)
 	if c.sa != nil {
